@@ -2,6 +2,7 @@ package props
 
 import (
 	"go/token"
+	"go/types"
 
 	"golang.org/x/tools/go/ssa"
 
@@ -31,9 +32,31 @@ func (c *Ctx) retVals(r *ssa.Return, i int) []ssa.Value {
 			if last != nil {
 				return c.P.Sources(last)
 			}
+			// a named result read by a bare return: the assignments that reach this return (and nil, if none need to)
+			if vals, zero, ok := c.P.ReachingStores(ld); ok && (len(vals) > 0 || zero) {
+				var out []ssa.Value
+				for _, st := range vals {
+					// an assignment whose value was then found nil on every way to this return (err = f(); if err != nil
+					// { return }; ...; return) contributes nil
+					if c.nilOnEveryPath(st, ld, r) {
+						out = append(out, ssa.NewConst(nil, ld.Type()))
+						continue
+					}
+					out = append(out, c.P.Sources(st.Val)...)
+				}
+				if zero {
+					if _, isIface := ld.Type().Underlying().(*types.Interface); isIface || isPointerish(ld.Type()) {
+						out = append(out, ssa.NewConst(nil, ld.Type()))
+					} else {
+						return c.P.Sources(v)
+					}
+				}
+				return out
+			}
 		}
 	}
-	return c.P.Sources(v)
+	// (seen from the return: operands of a join that the branches dominating the return rule out are not candidates)
+	return c.P.SourcesAt(v, r)
 }
 
 func allNil(vs []ssa.Value) bool {
@@ -411,4 +434,57 @@ func init() {
 			floorKey("G Buffer.buffer", 4, "G/", "Buffer.buffer"),
 		},
 	})
+}
+
+func isPointerish(t types.Type) bool {
+	switch t.Underlying().(type) {
+	case *types.Pointer, *types.Slice, *types.Map, *types.Chan, *types.Signature:
+		return true
+	}
+	return false
+}
+
+// nilOnEveryPath: every path from the assignment st to the return r leaves a nil test of the assigned variable (or of
+// the assigned value) through its nil edge.
+func (c *Ctx) nilOnEveryPath(st *ssa.Store, ld *ssa.UnOp, r *ssa.Return) bool {
+	P := c.P
+	fn := r.Parent()
+	cell := P.CellOf(ld.X)
+	if cell == nil || !(isPointerish(ld.Type()) || func() bool { _, ok := ld.Type().Underlying().(*types.Interface); return ok }()) {
+		return false
+	}
+	isVar := func(v ssa.Value) bool {
+		if v == st.Val {
+			return true
+		}
+		if l2, ok := isLoad(v); ok {
+			return P.CellOf(l2.X) == cell
+		}
+		return false
+	}
+	ifs, negs := P.IfsOn(fn, func(cond ssa.Value) bool {
+		b, ok := cond.(*ssa.BinOp)
+		return ok && (b.Op == token.EQL || b.Op == token.NEQ) && either(b, isVar, isNilConst)
+	})
+	if len(ifs) == 0 {
+		return false
+	}
+	type edge struct {
+		b *ssa.BasicBlock
+		i int
+	}
+	nilEdges := map[edge]bool{}
+	for i, ifi := range ifs {
+		b := stripNotV(ifi.Cond).(*ssa.BinOp)
+		nilWhenTrue := b.Op == token.EQL
+		if negs[i] {
+			nilWhenTrue = !nilWhenTrue
+		}
+		ns := 1
+		if nilWhenTrue {
+			ns = 0
+		}
+		nilEdges[edge{ifi.Block(), ns}] = true
+	}
+	return !P.PathExists(fn, st, an.Is(r), nil, func(b *ssa.BasicBlock, i int) bool { return nilEdges[edge{b, i}] })
 }
